@@ -1,6 +1,7 @@
 package props
 
 import (
+	"context"
 	"fmt"
 	"strings"
 	"testing"
@@ -24,6 +25,9 @@ type posStep struct {
 }
 
 type posCase struct {
+	// Pre: a game the engine was used for through its API before the driver was attached to it
+	// (a second session on the same engine). The commands say what the game is from then on.
+	Pre   *posCmd   `json:"pre,omitempty"`
 	Steps []posStep `json:"steps"`
 	Probe []string  `json:"probe"` // further moves played on both boards after the last command
 }
@@ -77,10 +81,27 @@ func engineGameMatches(s *uciSession, cmd posCmd, probe []string) error {
 }
 
 var checkC10 = def("C10/position", func(c posCase) error {
-	s := newUCISession(newPlainEngine())
+	e0 := newPlainEngine()
+	var labels []string
+	if c.Pre != nil {
+		ctx := context.Background()
+		f := c.Pre.FEN
+		if f == "" {
+			f = oracle.InitialFEN
+		}
+		if err := e0.Reset(ctx, f); err != nil {
+			return fmt.Errorf("case: pre-use: %v", err)
+		}
+		for _, mv := range c.Pre.Moves {
+			if err := e0.Move(ctx, mv); err != nil {
+				return fmt.Errorf("case: pre-use: %v", err)
+			}
+		}
+		labels = append(labels, "engine-used-before-the-driver-attached")
+	}
+	s := newUCISession(e0)
 	defer s.quit()
 	var last *posCmd
-	var labels []string
 	shortcut, asides := 0, 0
 	prevText := ""
 	for i, st := range c.Steps {
@@ -125,7 +146,7 @@ var checkC10 = def("C10/position", func(c posCase) error {
 			}
 		}
 	}
-	stats.Case("C10/position", stats.FP(fmt.Sprint(c.Steps), fmt.Sprint(c.Probe)), len(c.Steps) >= 2 && (shortcut > 0 || asides > 0), dedup(labels)...)
+	stats.Case("C10/position", stats.FP(fmt.Sprint(c.Pre), fmt.Sprint(c.Steps), fmt.Sprint(c.Probe)), (len(c.Steps) >= 2 && (shortcut > 0 || asides > 0)) || c.Pre != nil, dedup(labels)...)
 	stats.Note("C10/position", "commands", int64(len(c.Steps)))
 	return nil
 })
@@ -149,6 +170,13 @@ func genPosCase(t *rapid.T) posCase {
 	pol := gen.DrawPolicy(t)
 	if rapid.Bool().Draw(t, "shuffle") {
 		pol = gen.Policy{0, 1, 0, 0, 1, 1, 0, 12, 0, 6}
+	}
+	if rapid.IntRange(0, 5).Draw(t, "preused") == 0 {
+		gc, _ := gen.Game(t, 12)
+		c.Pre = &posCmd{FEN: gc.FEN, Moves: gc.Moves}
+		if gc.FEN == oracle.InitialFEN {
+			c.Pre.FEN = ""
+		}
 	}
 	fenText, g := start()
 	var moves []string
